@@ -18,8 +18,9 @@ PNames == <<"a", "b", "c">>
 CallerLets == <<Let("a", Str(<<"A">>)), Let("b", Str(<<"B">>)), Let("c", Str(<<"C">>))>>
 CallerVal(n) == CASE n = "a" -> S(<<"A">>) [] n = "b" -> S(<<"B">>) [] n = "c" -> S(<<"C">>)
 
-ArgPool == { Bool(TRUE), Bool(FALSE), Str(<<"x">>), Str(<<>>), IntL(1), Id("a"), Id("b") }
-ArgVal(e) == CASE e.t = "bool" -> B(e.b) [] e.t = "str" -> S(e.s) [] e.t = "int" -> I(e.n) [] e.t = "id" -> CallerVal(e.id)
+\* (nil as an argument: the parameter is bound to nil and hides the caller's variable of the same name)
+ArgPool == { Bool(TRUE), Bool(FALSE), Str(<<"x">>), Str(<<>>), IntL(1), Id("a"), Id("b"), Id("nil") }
+ArgVal(e) == CASE e.t = "bool" -> B(e.b) [] e.t = "str" -> S(e.s) [] e.t = "int" -> I(e.n) [] e.t = "id" -> (IF e.id = "nil" THEN Nil ELSE CallerVal(e.id))
 
 \* conditions and results of chain links, over parameter positions
 Conds(n) == { [t |-> "p", i |-> i] : i \in 1..n } \cup { [t |-> "np", i |-> i] : i \in 1..n }
@@ -77,10 +78,15 @@ RecProgs(k) ==
                   Text(<<"[">>), Emit(Call("pair", <<Str(<<"k">>), Call("up", <<Str(<<"x">>)>>)>>)), Text(<<",">>),
                   Emit(Call("pair", <<Call("up", <<Str(<<"a">>)>>), Call("up", <<Str(<<"b">>)>>)>>)), Text(<<",">>),
                   Emit(Call("pair", <<Str(<<"k">>), Call("pair", <<Str(<<"m">>), Call("up", <<Str(<<"n">>)>>)>>)>>)), Text(<<"]">>)>>,
+    \* a returned array is the call's value as it is: one element, nested arrays
+    retarr |-> <<Let("wrap", FnLit(<<"x">>, <<Ret(Arr(<<Id("x")>>))>>)), Let("rows", FnLit(<<"p", "q">>, <<Ret(Arr(<<Arr(<<Id("p")>>), Arr(<<Id("q")>>)>>))>>)),
+                 Let("w", Call("wrap", <<IntL(k)>>)), Let("r", Call("rows", <<IntL(k), IntL(9)>>)),
+                 Text(<<"[">>), Emit(Call("len", <<Id("w")>>)), Text(<<",">>), Emit(For("", "v", Call("wrap", <<IntL(k)>>), <<Text(<<"(">>), Emit(Id("v")), Text(<<")">>)>>)), Text(<<",">>),
+                 Emit(Call("len", <<Id("r")>>)), Text(<<",">>), Emit(Call("len", <<Idx(Id("r"), IntL(1))>>)), Text(<<",">>), Emit(Idx(Idx(Id("r"), IntL(1)), IntL(0))), Text(<<"]">>)>>,
     \* the name at a call site is bound to another function between two executions of that call (loop variable)
     rebind |-> <<Let("inc", FnLit(<<"m">>, <<Ret(Bin("+", Id("m"), IntL(1)))>>)), Let("dbl", FnLit(<<"m">>, <<Ret(Bin("*", Id("m"), IntL(2)))>>)),
                 Text(<<"[">>), Emit(For("", "w", Arr(<<Id("inc"), Id("dbl"), Id("inc")>>), <<Emit(Call("w", <<IntL(k)>>)), Text(<<";">>)>>)), Text(<<"]">>)>> ]
-RecNames == {"sum", "down", "fib", "after", "twice", "apply", "compose", "rebind", "nestarg"}
+RecNames == {"sum", "down", "fib", "after", "twice", "apply", "compose", "rebind", "nestarg", "retarr"}
 RECURSIVE Fib(_)
 Fib(k) == IF k < 2 THEN k ELSE Fib(k - 1) + Fib(k - 2)
 RECURSIVE Rep(_, _)
@@ -94,6 +100,7 @@ RecText(nm, k) ==
     [] nm = "apply" -> <<"[">> \o IntChars(k + 1) \o <<",">> \o IntChars(2 * k) \o <<",">> \o IntChars(k + 1) \o <<"]">>
     [] nm = "compose" -> <<"[">> \o IntChars(2 * k + 1) \o <<",">> \o IntChars(2 * (k + 1)) \o <<"]">>
     [] nm = "nestarg" -> <<"[", "k", "-", "x", "!", ",", "a", "!", "-", "b", "!", ",", "k", "-", "m", "-", "n", "!", "]">>
+    [] nm = "retarr" -> <<"[", "1", ",", "(">> \o IntChars(k) \o <<")", ",", "2", ",", "1", ",", "9", "]">>
     [] nm = "rebind" -> <<"[">> \o IntChars(k + 1) \o <<";">> \o IntChars(2 * k) \o <<";">> \o IntChars(k + 1) \o <<";", "]">>
 
 VARIABLES n, links, dflt, args, use, res
@@ -132,7 +139,11 @@ FirstLink(vs) == IF \E i \in 1..Len(links) : CondHolds(links[i].c, vs)
                  THEN CHOOSE i \in 1..Len(links) : CondHolds(links[i].c, vs) /\ \A j \in 1..(i-1) : ~CondHolds(links[j].c, vs)
                  ELSE 0
 ChainValue(vs) == IF FirstLink(vs) > 0 THEN RetVal(links[FirstLink(vs)].r, vs) ELSE RetVal(dflt, vs)
-ChainSpecified(vs) == \A i \in 1..Len(links) : (FirstLink(vs) = 0 \/ i <= FirstLink(vs)) => CondSpecified(links[i].c, vs)
+\* (a parameter bound to nil reads as nil in a condition; returning it or comparing it is not specified)
+RetSpecified(r, vs) == r.t # "p" \/ vs[r.i].t # "nil"
+ChainSpecified(vs) == /\ \A i \in 1..Len(links) : (FirstLink(vs) = 0 \/ i <= FirstLink(vs)) =>
+                            (CondSpecified(links[i].c, vs) /\ (links[i].c.t = "eq" => vs[links[i].c.i].t # "nil" /\ vs[links[i].c.j].t # "nil"))
+                      /\ RetSpecified(IF FirstLink(vs) > 0 THEN links[FirstLink(vs)].r ELSE dflt, vs)
 \* probes that run: one after every link that did not return
 ChainProbes(vs) == IF FirstLink(vs) > 0 THEN FirstLink(vs) - 1 ELSE Len(links)
 
@@ -145,7 +156,8 @@ UseText(u, v) ==
 
 RecTheorem == n = -1 => (res.k = "out" /\ PieceText(res.pieces) = RecText(use, args[1]) /\ res.depth = 1)
 ChainTheorem ==
-  (n >= 0 /\ res.k # "none" /\ ChainSpecified(ArgVals) /\ ~(use = "cmp" /\ ChainValue(ArgVals).t # "str")) =>
+  (n >= 0 /\ res.k # "none" /\ ChainSpecified(ArgVals) /\ ~(use = "cmp" /\ ChainValue(ArgVals).t # "str")
+     /\ ~(use = "hof" /\ \E i \in 1..n : ArgVals[i].t = "nil")) =>      \* (passing a nil-bound parameter on is not specified)
      /\ res.k = "out"
      /\ PieceText(res.pieces) = UseText(use, ChainValue(ArgVals))
      /\ Len(res.log) = ChainProbes(ArgVals)
